@@ -250,6 +250,24 @@ def compare_feature_forms(ctx: Ctx, f: str, cfg, paths, T: int, H: int, dtype):
         if not bool(((one - ref).abs() <= tol).all()):
             return (f"feature:{f}:step-vs-all", f"{f}.get({i}) differs from column {i} of {f}.get(None)",
                     {"T": T, "step": i, "single": one.flatten()[:4].tolist(), "column": ref.flatten()[:4].tolist()})
+    # a SHORT-dated derivative on an underlier that was simulated for longer (e.g. together with a longer-dated one): both
+    # forms index the same simulated series
+    if T >= 3:
+        from pfhedge.instruments import EuropeanOption
+        d_long, _, _ = build_market(cfg, paths, K, DT, dtype)
+        d_short = EuropeanOption(d_long.ul(), call=cfg["call"], strike=K, maturity=max(1, (T - 1) // 2) * DT)
+        if any(x in ("spot", "log_spot") for x in cfg["feats"]):
+            d_short.list(lambda d: 4 * d.ul().spot)
+        fs = get_feature(make_feature(f, H, dtype)).of(d_short)
+        full_s = fs.get(None)
+        fs2 = get_feature(make_feature(f, H, dtype)).of(d_short)
+        tol = time_tol(T, dtype) * (4 if f == "module_a" else 1) if f in ("time_to_maturity", "expiry_time", "module_a") else 0.0
+        for i in range(T):
+            ctx.count(n=1)
+            one = fs2.get(i)
+            if one.shape != full_s[:, [i]].shape or not bool(((one - full_s[:, [i]]).abs() <= tol).all()):
+                return (f"feature:{f}:short-dated-step-vs-all", f"{f}.get({i}) differs from column {i} of {f}.get(None) for a derivative whose underlier was simulated beyond its maturity",
+                        {"T": T, "step": i, "maturity_steps": max(1, (T - 1) // 2), "single": one.flatten()[:4].tolist(), "column": full_s[:, [i]].flatten()[:4].tolist()})
     return None
 
 
